@@ -2,7 +2,12 @@
 
 package zset
 
-import "fmt"
+import (
+	"encoding/hex"
+	"fmt"
+	"math"
+	"strings"
+)
 
 // VerifCheck validates the skiplist against the dictionary: level-0 chain sorted by
 // (score, member), backward links, tail, length, every span equal to the level-0 distance it
@@ -85,4 +90,133 @@ func (sortedSet *SortedSet) VerifDict() []Item {
 		return true
 	})
 	return out
+}
+
+// VerifSL exposes the unexported pointer skiplist on its own (without the dictionary), so that
+// every operation can be compared structurally (levels, spans, backward links, tail) with a model.
+type VerifSL struct{ sl *skiplist }
+
+// VerifNewSL wraps makeSkiplist.
+func VerifNewSL() *VerifSL { return &VerifSL{sl: makeSkiplist()} }
+
+const verifWalkBound = 1000000
+
+// positions maps every node of the level-0 chain to its position (header = 0). ok is false
+// when the walk does not end within verifWalkBound nodes.
+func (v *VerifSL) positions() (pos map[*node]int64, chain []*node, ok bool) {
+	pos = map[*node]int64{v.sl.header: 0}
+	chain = []*node{v.sl.header}
+	var i int64
+	for n := v.sl.header.level[0].forward; n != nil; n = n.level[0].forward {
+		i++
+		if i > verifWalkBound {
+			return pos, chain, false
+		}
+		if _, seen := pos[n]; !seen {
+			pos[n] = i
+		}
+		chain = append(chain, n)
+	}
+	return pos, chain, true
+}
+
+func verifPos(pos map[*node]int64, n *node) int64 {
+	if n == nil {
+		return -1
+	}
+	if p, ok := pos[n]; ok {
+		return p
+	}
+	return -2
+}
+
+// posOf: 0 header, -1 nil, -2 not on the level-0 chain.
+func (v *VerifSL) posOf(n *node) int64 {
+	if n == nil {
+		return -1
+	}
+	pos, _, _ := v.positions()
+	return verifPos(pos, n)
+}
+
+func verifItems(in []*Item) []Item {
+	out := make([]Item, 0, len(in))
+	for _, it := range in {
+		out = append(out, *it)
+	}
+	return out
+}
+
+// Insert calls insert and returns len(level) of the new node.
+func (v *VerifSL) Insert(member string, score float64) (height int) {
+	return len(v.sl.insert(member, score).level)
+}
+
+func (v *VerifSL) Remove(member string, score float64) bool { return v.sl.remove(member, score) }
+
+func (v *VerifSL) GetRank(member string, score float64) int64 { return v.sl.getRank(member, score) }
+
+// GetByRank returns the chain position of the node returned by getByRank.
+func (v *VerifSL) GetByRank(r int64) int64 { return v.posOf(v.sl.getByRank(r)) }
+
+func (v *VerifSL) HasInRange(min, max float64) bool { return v.sl.hasInRange(min, max) }
+
+func (v *VerifSL) GetFirstInRange(min, max float64) int64 {
+	return v.posOf(v.sl.getFirstInRange(min, max))
+}
+
+func (v *VerifSL) GetLastInRange(min, max float64) int64 {
+	return v.posOf(v.sl.getLastInRange(min, max))
+}
+
+func (v *VerifSL) RemoveRange(min, max float64, limit int, mode int) []Item {
+	return verifItems(v.sl.removeRange(min, max, limit, mode))
+}
+
+func (v *VerifSL) RemoveRangeByRank(start, stop int64) []Item {
+	return verifItems(v.sl.removeRangeByRank(start, stop))
+}
+
+func verifMemberHex(m string) string {
+	if m == "" {
+		return "-"
+	}
+	return hex.EncodeToString([]byte(m))
+}
+
+// Dump prints the whole structure: level, length, tail, then the header and every node of the
+// level-0 chain with backward position, height and (forward position / span) for each level.
+func (v *VerifSL) Dump() string {
+	pos, chain, ok := v.positions()
+	if !ok {
+		return "CYCLE"
+	}
+	var b strings.Builder
+	fmt.Fprintf(&b, "L=%d n=%d t=%d", v.sl.level, v.sl.length, verifPos(pos, v.sl.tail))
+	for _, n := range chain {
+		fmt.Fprintf(&b, " | %016x:%s b=%d h=%d", math.Float64bits(n.Score), verifMemberHex(n.Member), verifPos(pos, n.backward), len(n.level))
+		for _, lv := range n.level {
+			fmt.Fprintf(&b, " %d/%d", verifPos(pos, lv.forward), lv.span)
+		}
+	}
+	return b.String()
+}
+
+// VerifDumpSL prints the sorted set's own skiplist in the format of VerifSL.Dump.
+func (sortedSet *SortedSet) VerifDumpSL() string {
+	return (&VerifSL{sl: sortedSet.skiplist}).Dump()
+}
+
+// VerifHeightOf returns len(level) of the node on the level-0 chain that holds member, 0 if none.
+func (sortedSet *SortedSet) VerifHeightOf(member string) int {
+	var i int64
+	for n := sortedSet.skiplist.header.level[0].forward; n != nil; n = n.level[0].forward {
+		if n.Member == member {
+			return len(n.level)
+		}
+		if i++; i > verifWalkBound {
+			break
+		}
+	}
+	return 0
 }
